@@ -12,7 +12,10 @@ def run_prop(prop, extra_parts=()):
     run = Run(prop, cfg["level"])
     corpus = runner.load_corpus(cfg.get("corpus", prop))
     cases = runner.select(corpus, run.tier)
-    results, stats = runner.run_cases(run, cases, cfg["defaults"])
+    defaults = dict(cfg["defaults"])
+    if run.tier == "thorough":
+        defaults.update(cfg.get("thorough_defaults", {}))
+    results, stats = runner.run_cases(run, cases, defaults)
     samples = []
     for c in cases[:3]:
         from .gen import program_src
@@ -29,6 +32,7 @@ def run_prop(prop, extra_parts=()):
         "corpus": stats,
         "what_is_decided": cfg["what"],
         "bounds": cfg["bounds"],
+        "parameters": {k: v for k, v in defaults.items() if k not in ("builds",)},
         "functions_encoded": "whole pipeline output: the blueprint JSON returned by dsl_compiler.cli.compile_dsl_source is encoded entity by entity (vf/bp.py); reference = vf/gen.py interpreter on the generator's own AST",
         "excluded_duplicates_of_known_defects": len(corpus.get("excluded_known_defect_duplicates", [])),
     }
